@@ -57,6 +57,8 @@ def _job(job):
     name, text, seed = job
     r = random.Random('c10/%s/%s' % (seed, name))
     boost = r.random() < 0.5
+    if name.startswith('replay'):
+        boost = name.endswith('+boost')
     it = ml.impl_items(text)
     ign = []
     if it[0] == 'ok' and r.random() < 0.4:
@@ -93,11 +95,19 @@ def run(rep, tier, seed, replay=None, proof_ok=True):
             continue
         if f['id'] == 'C10-enum-path' and q == '1':
             rep.known('%s: %s [witness: %s]' % (f['id'], f['what_fails'], f['witness']))
+        if f['id'] == 'C10-class-function-name-collision':
+            r = ml.impl_matlab([f['witness']])
+            if r[0] == 'ok' and 'classdef' not in r[1].get('A.m', '') and 'A_collectorInsertAndMakeBase' in r[1].get('mod_wrapper.cpp', ''):
+                rep.known('%s: %s [witness: %s]' % (f['id'], f['what_fails'], f['witness']))
         if f['id'] == 'C10-instantiation-name-collision':
             r = ml.impl_matlab([f['witness']])
             if r[0] == 'ok' and sum(1 for p in r[1] if p.endswith('CX.m')) == 1 and 'C<b::X>' in r[1].get('mod_wrapper.cpp', ''):
                 rep.known('%s: %s [witness: %s]' % (f['id'], f['what_fails'], f['witness']))
     cases, stats = ml.gen_cases(tier, seed, 150, 4000, tag='c10')
+    if replay:
+        import json as _json
+        _t = _json.load(open(replay))['input']
+        cases, stats = [('replay', _t), ('replay+boost', _t)], {}
     rep.coverage['input_distribution'] = stats
     with mp.get_context('fork').Pool(14) as pool:
         results = pool.map(_job, [(n, t, seed) for n, t in cases], chunksize=2)
@@ -150,7 +160,13 @@ def run(rep, tier, seed, replay=None, proof_ok=True):
                     accessors = []
                     for pr in sprops:
                         accessors += ['get.' + pr, 'set.' + pr]
-                    exp_methods = fixed + smethods + (['saveobj'] if 'string_serialize' in smethods else []) + accessors
+                    # the serialize method's text holds string_serialize and, right after it, saveobj
+                    sm2 = []
+                    for mname in smethods:
+                        sm2.append(mname)
+                        if mname == 'string_serialize':
+                            sm2.append('saveobj')
+                    exp_methods = fixed + sm2 + accessors
                     exp_statics = sstatics + (['loadobj'] if 'string_deserialize' in sstatics else [])
                     if (name_, base, ptr, props) != (sname, sbase, sptr, sprops):
                         diffs.append(('classdef header', p, (name_, base, ptr, props), (sname, sbase, sptr, sprops)))
